@@ -213,13 +213,73 @@ def compile_function(target, repo=None):
     return loc, code, stats
 
 
+_RUN_CTX = []      # (target, env, np_extra, repo) of the run_function calls in progress: lets a stub `self` resolve members from the tree
+
+
+class Obj:
+    """stub `self` for the CAS tier.  A member the contract did not give it is looked up in the REAL class of the analysed method
+    *in the tree* (same-file class, its same-file bases): a method is compiled with the same mechanical instrumentation and the same
+    CAS globals and bound to the stub (so helpers an edit extracts are executed as real code), an immutable literal class constant is
+    its value; anything else is OutOfSubset (undecided, fail closed) - never a checker crash."""
+
+    def __init__(self, **kw):
+        self.__dict__.update(kw)
+
+    def __getattr__(self, k):
+        if k.startswith('__') or not _RUN_CTX:
+            raise AttributeError(k)
+        import ast as _ast
+        import types as _types
+        target, env, np_extra, repo = _RUN_CTX[-1]
+        if '::' not in target or '.' not in target.split('::')[1]:
+            raise OutOfSubset('stub self has no member %r and the target %s is not a method' % (k, target))
+        path, qual = target.split('::')
+        clsname = qual.split('.')[-2].split('#')[0]
+        try:
+            from .engine import _class_chain
+            chain, _shared = _class_chain(path, repo, clsname)
+        except Exception as e:
+            raise OutOfSubset('stub self has no member %r (class %s not resolvable in the tree: %s)' % (k, clsname, e))
+        for cd in chain:
+            hit = None
+            for st in cd.body:
+                if isinstance(st, _ast.FunctionDef) and st.name == k:
+                    hit = st
+                elif isinstance(st, _ast.Assign) and len(st.targets) == 1 and isinstance(st.targets[0], _ast.Name) and st.targets[0].id == k:
+                    hit = st
+            if hit is None:
+                continue
+            if isinstance(hit, _ast.Assign):
+                try:
+                    return _ast.literal_eval(hit.value)
+                except Exception:
+                    raise OutOfSubset('class attribute %s.%s is not an immutable literal' % (cd.name, k))
+            decos = [d.id if isinstance(d, _ast.Name) else getattr(d, 'attr', '?') for d in hit.decorator_list]
+            loc, code, stats = compile_function('%s::%s.%s' % (path, cd.name, k), repo)
+            g = cas_globals(env, np_extra)
+            exec(code, g)
+            fn = g[loc.node.name]
+            if 'staticmethod' in decos:
+                return fn
+            if 'property' in decos:
+                return fn(self)
+            if decos:
+                raise OutOfSubset('decorated member %s.%s (%s)' % (cd.name, k, decos))
+            return _types.MethodType(fn, self)
+        raise OutOfSubset('stub self has no member %r and the real class %s (and its same-file bases) has none either' % (k, clsname))
+
+
 def run_function(target, args=(), kwargs=None, env=None, np_extra=None, repo=None):
     """-> (result, loc, stats); program exceptions propagate with ._vc_explicit"""
     loc, code, stats = compile_function(target, repo)
     g = cas_globals(env, np_extra)
     exec(code, g)
     fn = g[loc.node.name]
-    return fn(*args, **(kwargs or {})), loc, stats
+    _RUN_CTX.append((target, env, np_extra, repo))
+    try:
+        return fn(*args, **(kwargs or {})), loc, stats
+    finally:
+        _RUN_CTX.pop()
 
 
 # ---------------------------------------------------------------------- deciding identities
